@@ -371,14 +371,16 @@ PROPS['C12'] = {
 PROPS['C07'] = {
     'title': 'Euclidean distance is the true minimum distance',
     'level': 'proof',
-    'verus': ['c07_branches'],
+    'verus': ['c07_branches', 'c07_segment'],
+    'twins': {'C07.V.line_segment_distance': r'^c07_k_(point_point_row|point_axis_line|line_string_contains_point_axis)'},
     'kani_extra': ['--no-memory-safety-checks', '--no-overflow-checks', '--no-assertion-reach-checks'],
     'kani': [
         ('geo', 'c07.rs', r'^c07_k_(point_point_row|line_string_contains_point_axis)$', 'bounded', 'quick'),
         ('geo', 'c02.rs', r'^c02_k_(line_coord|line_line)$', 'complete', 'quick'),
         ('geo', 'c07.rs', r'^c07_k_point_axis_line$', 'bounded', 'thorough'),
     ],
-    'trusted': ['Verus unit c07_branches: which candidate set Polygon x Polygon distance minimises over (0 when they intersect; the hole rings when one operand sits inside the other\'s shell -- both mirror images; shell to shell otherwise) for any number of holes, with the leaf kernels (intersects, strictly-inside-ring, ring-to-ring nearest-neighbour distance, scalar min / max_value) abstract',
+    'trusted': ['Verus unit c07_segment: exact ring scalar; hypot abstract (a function of its arguments); of a quotient only its position relative to 0 and 1 is assumed (positive divisor)',
+                'Verus unit c07_branches: which candidate set Polygon x Polygon distance minimises over (0 when they intersect; the hole rings when one operand sits inside the other\'s shell -- both mirror images; shell to shell otherwise) for any number of holes, with the leaf kernels (intersects, strictly-inside-ring, ring-to-ring nearest-neighbour distance, scalar min / max_value) abstract',
                 'very partial otherwise: exact distance, zero-iff-equal and operand-order / typing invariance for points on one lattice row (quick) and point x axis-parallel segment (thorough), with f64::hypot modelled exactly on axis-parallel arguments',
                 'the "exactly zero precisely when the geometries intersect" clause rests on the `intersects` early-outs of the distance impls: the segment kernels they call (Line x Coord, Line x Line) are decided completely on the lattice by the C02 harnesses listed here'],
     'undecided_clauses': [
